@@ -6,20 +6,26 @@ GLAS_TARGET = os.path.join(common.HARNESS, "target", "glasbin")
 GLAS_BIN = os.path.join(GLAS_TARGET, "debug", "glas")
 
 
-def build_glas():
-    """rebuild the real server binary from /repo's working tree"""
-    env = dict(common.ENV, CARGO_TARGET_DIR=GLAS_TARGET)
-    rc, out = common.sh(["cargo", "build", "--offline", "-q", "-p", "glas", "--bin", "glas"], cwd=common.REPO, timeout=1800, env=env)
+GLAS_TARGET_V = os.path.join(common.HARNESS, "target", "glasbin-verif")
+GLAS_BIN_V = os.path.join(GLAS_TARGET_V, "debug", "glas")
+
+
+def build_glas(verif=False):
+    """rebuild the real server binary from /repo's working tree (verif=True: with the hook feature,
+    which adds the named yield points / event trace of the lock choreography)"""
+    env = dict(common.ENV, CARGO_TARGET_DIR=GLAS_TARGET_V if verif else GLAS_TARGET)
+    cmd = ["cargo", "build", "--offline", "-q", "-p", "glas", "--bin", "glas"] + (["--features", "verif"] if verif else [])
+    rc, out = common.sh(cmd, cwd=common.REPO, timeout=1800, env=env)
     if rc != 0:
-        raise common.Broken("build of the real glas binary", common.tail(out))
+        raise common.Broken("build of the real glas binary" + (" (feature verif)" if verif else ""), common.tail(out))
 
 
 class Lsp:
-    def __init__(self, root, env_extra=None):
+    def __init__(self, root, env_extra=None, verif=False):
         env = dict(common.ENV, RUST_BACKTRACE="0", GLEAM_LOG="off")
         if env_extra:
             env.update(env_extra)
-        self.p = subprocess.Popen([GLAS_BIN, "--stdio"], stdin=subprocess.PIPE, stdout=subprocess.PIPE, stderr=subprocess.PIPE,
+        self.p = subprocess.Popen([GLAS_BIN_V if verif else GLAS_BIN, "--stdio"], stdin=subprocess.PIPE, stdout=subprocess.PIPE, stderr=subprocess.PIPE,
                                   env=env, cwd=root)
         self.q = queue.Queue()
         self.responses = {}
